@@ -369,17 +369,87 @@ def structured(rnd, nr, nc, kind="small", style=None):
     return m
 
 
-def knife(rnd):
+def knife(rnd, far=False):
     """LPs whose status hinges on a quantity far below double precision: a `knife` gadget (infeasible by eps, a single feasible
     point, or feasible by eps; eps = 2^-k or lost in the rounding of 2^53-sized data) embedded in a small planted LP, with the
     gadget's columns moved to random positions (often first).  Decides between OPTIMAL and INFEASIBLE only in exact arithmetic."""
     m = planted_optimal(rnd, rnd.randint(0, 3), rnd.randint(0, 3), "small") if rnd.random() < 0.7 else LP("knife", rnd.choice([MIN, MAX]))
     m.name = "knife"
     sgn = rnd.choice([1, 1, 0, -1])            # 1: infeasible by eps, 0: exactly one point along the gadget, -1: feasible by eps
-    style = rnd.choice(["bound", "bound", "sum", "big", "chain"])
+    # `freeray` LPs are feasible only at points beyond the library's infinity (1e150): no definitive answer can be demanded for
+    # them (C03), only that a reported INFEASIBLE is proved (C02): they are generated on request only
+    style = "freeray" if far else rnd.choice(["bound", "bound", "sum", "big", "chain", "tied", "tied", "tinycoef"])
     eps = F(1, 2 ** rnd.choice([20, 28, 30, 31, 35, 40, 52, 60, 90])) * sgn
     new_cols, new_rows = [], []
-    if style == "bound":
+    if style == "tied":
+        # an expression e(x) is capped twice, by u and by u -/+ 2^-k, through two different mechanisms (L row, upper side of a
+        # range row, negated G row, column bound), and the objective pushes it up: the two candidate vertices differ by less than
+        # any double tolerance and only one of them is feasible
+        ncol = rnd.randint(1, 3)
+        cols_ = [Col(None, F(0), rnd.choice([NINF, F(0), F(-3)]), INF) for _ in range(ncol)]
+        w = [F(rnd.randint(1, 4)) for _ in range(ncol)]
+        u = F(rnd.randint(-3, 9))
+        hair = F(1, 2 ** rnd.choice([21, 22, 25, 30, 40])) * rnd.choice([1, 1, -1])
+        def cap(kind, ub):
+            r = Row(None, "L", ub, 0)
+            for c, a_ in zip(cols_, w):
+                r.coef[c] = a_
+            if kind == "R":
+                r.sense, r.range, r.rhs = "R", F(rnd.randint(1, 5)), ub - 0
+                r.rhs = ub - r.range
+            elif kind == "G":
+                r.sense, r.rhs = "G", -ub
+                for c in list(r.coef):
+                    r.coef[c] = -r.coef[c]
+            return r
+        k1, k2 = rnd.sample(["L", "R", "G", "L"], 2) if ncol > 1 or rnd.random() < 0.6 else ("L", "bound")
+        new_rows = [cap(k1, u)]
+        if k2 == "bound":
+            cols_[0].up = (u - hair) / w[0]
+            if cols_[0].lo != NINF and cols_[0].lo > cols_[0].up:
+                cols_[0].lo = NINF
+        else:
+            new_rows.append(cap(k2, u - hair))
+        if rnd.random() < 0.5:
+            new_rows.reverse()
+        s_ = m.objsense
+        for c, a_ in zip(cols_, w):
+            c.obj = -s_ * a_ * rnd.choice([1, 1, 2])          # improve by increasing e
+        new_cols = cols_
+    elif style == "tinycoef":
+        # max x s.t. t*x + w <= 1, x - z >= 0 with t = 10^-k: bounded, optimum 1/t, the only blocking pivot element is t
+        t = F(1, 10 ** rnd.choice([20, 33, 40, 45, 60])) if rnd.random() < 0.7 else F(1, 2 ** rnd.choice([100, 120, 140]))
+        x, wv, z = Col(None, F(0), F(0), INF), Col(None, F(0), F(0), INF), Col(None, F(0), F(0), INF)
+        x.obj = -F(m.objsense)
+        r1 = Row(None, "L", F(1), 0)
+        r1.coef[x], r1.coef[wv] = t, F(1)
+        r2 = Row(None, "G", F(0), 0)
+        r2.coef[x], r2.coef[z] = F(1), F(-1)
+        new_cols, new_rows = [x, wv, z], [r1, r2]
+        if rnd.random() < 0.4:
+            r1.coef[x], r1.rhs = t * 3, F(3)
+    elif style == "freeray":
+        # r1: x + c z >= M ; r2: x + (c + d) z <= M - D, x >= 0, z free, d far below double precision: the double solver sees two
+        # contradicting parallel rows, but the LP is feasible (far out along z) unless d == 0
+        c_ = F(rnd.randint(1, 5), rnd.choice([1, 3, 7]))
+        if rnd.random() < 0.5:
+            M, D, d = F(rnd.randint(1, 9)), F(1, rnd.choice([10, 1000])), F(1, 10 ** rnd.choice([120, 140, 160]))
+        else:
+            M = D = F(10) ** rnd.choice([100, 120, 130])
+            d = F(1, 2 ** rnd.choice([60, 80]))
+        if sgn == 0:
+            d = F(0)
+        x, z = Col(None, F(rnd.randint(0, 2)), F(0), INF), Col(None, F(0), NINF, INF)
+        r1 = Row(None, "G", M, 0)
+        r1.coef[x], r1.coef[z] = F(1), c_
+        r2 = Row(None, "L", M - D, 0)
+        r2.coef[x], r2.coef[z] = F(1), c_ + d
+        new_cols, new_rows = [x, z], [r1, r2]
+        if rnd.random() < 0.3:
+            r3 = Row(None, "G", F(-10), 0)
+            r3.coef[z] = F(1)
+            new_rows.append(r3)
+    elif style == "bound":
         # x_j <= lo_j - eps - sum a_k (x_k - lo_k)  with a_k >= 0, x_k >= lo_k
         lo = rnd_num(rnd, "int")
         xj = Col(None, rnd_num(rnd, "int"), lo, rnd.choice([INF, lo + 5]))
@@ -487,6 +557,8 @@ def big(rnd):
 def family(rnd, name):
     if name == "knife":
         return knife(rnd)
+    if name == "knife-far":
+        return knife(rnd, far=True)
     if name == "big":
         return big(rnd)
     if name == "small-rand":
